@@ -9,7 +9,7 @@ def _replays(kind, profiles):
 
 
 def models(tier):
-    ml = 4 if tier == "quick" else 5
+    ml = 3 if tier == "cross" else 4 if tier == "quick" else 5
     ms = []
     ms.append(dict(tag="list", consts=dict(MaxLen=ml, Vals={1, 2, 3}, Maxes={0, 1, 3}, Kind="list"),
                    invariants=["TypeOK"], properties=["LimitRespected", "RefusalsHarmless"],
@@ -86,7 +86,7 @@ def _rand_front(rng, steps, kind):
 
 
 def randoms(tier, rng):
-    nseg, steps = (4, 1500) if tier == "quick" else (16, 4000)
+    nseg, steps = (4, 1500) if tier == "quick" else (2, 500) if tier == "cross" else (16, 4000)
     out = []
     big = dict(MaxLen=1000000, Vals={1, 2, 3, 4}, Maxes={0}, Kind="list")
     out.append(dict(tag="list", segs=[_rand_list(rng, steps, 500 if k % 2 == 0 else 30) for k in range(nseg)], trace_consts=big,
